@@ -563,6 +563,14 @@ class Engine:
         return vstr(self.reg.render(v))
 
     def ev_Attribute(self, node, st):
+        if (isinstance(node.value, ast.Name) and node.value.id not in st.vars and node.value.id not in self.bound and self.mod is not None
+                and node.value.id in self.mod.imports and self.mod.imports[node.value.id][1] is None and not self.spec):
+            # module.CONSTANT (e.g. os.sep): an assumed contract without parameters keyed "module.CONSTANT"
+            key = f"{self.mod.imports[node.value.id][0]}.{node.attr}"
+            c = self.reg.contracts.get(key)
+            if c is None or c.params:
+                raise OutOfSubset(f"no contract for module attribute {key} (line {node.lineno})")
+            return self.reg.apply_contract(self, c, [], {}, st, node)
         out = []
         for s, recv in self.ev(node.value, st):
             out += self.getattr(recv, node.attr, s, node)
